@@ -66,6 +66,16 @@ def run(R):
             R.violation(f'build-raises-{type(c).__name__}', f'cannot build {name}: {c!r}', W)
             continue
         one(R, B, name, r, c, W, all_forms=n < 3000, huge=n > 20000)
+        if 1 < n <= 300:
+            # equal sub-cells as distinct Python objects, and a root that came out of the parser (its cells hold parser-made bit arrays)
+            st, cf = mon.call(bridge.to_lib, r, 'builder-fresh')
+            if st == 'ok':
+                one(R, B, name + '/equal-cells-as-distinct-objects', r, cf, dict(W, objects='distinct'), all_forms=False)
+                R.count('fresh_object_dags')
+            st, cp = mon.call(bridge.to_lib, r, 'boc-hashes')
+            if st == 'ok':
+                one(R, B, name + '/reserialise-parsed-foreign', r, cp, dict(W, objects='parsed from a foreign encoding with stored hashes'), all_forms=False)
+                R.count('reserialised_parsed_dags')
         R.case(mon.fp(r.hash) if n > 1 else None, sample={'class': name, 'cells': n, 'types': sorted({x.type for x in cells})} if not name.startswith('bulk') or R.evaluations < 3 else None)
         R.cover('classes', name)
         R.cover('sharing', min(8, max_fanin(cells)))
@@ -79,6 +89,8 @@ def run(R):
     R.floor('opts:(True, True, True)', 5)
     R.floor('parse:base64:Slice.one_from_boc', 5)
     R.floor('parse:hex:Builder.one_from_boc', 5)
+    R.floor('fresh_object_dags', 20)
+    R.floor('reserialised_parsed_dags', 20)
 
 
 def max_fanin(cells):
